@@ -413,7 +413,7 @@ func (h *hist) pickQueue() string {
 	return world.TurnstoneQueue(ch)
 }
 
-var signModes = []string{"valid", "valid", "valid", "valid", "garbage", "wrong-key", "other-validators-key", "replay-foreign", "duplicate", "stale", "short"}
+var signModes = []string{"valid", "valid", "valid", "valid", "garbage", "wrong-key", "other-validators-key", "replay-foreign", "duplicate", "stale", "short", "other-chains-key"}
 
 func randBytes(r *rand.Rand, n int) []byte {
 	b := make([]byte, n)
@@ -474,6 +474,14 @@ func (h *hist) mkSig(v *chain.Account, q string, qm consensustypes.QueuedSignedM
 		if s.Signature == nil {
 			return nil
 		}
+	case "other-chains-key":
+		// the key (and account) the validator registered for ANOTHER chain
+		oi, okey := h.otherChain(v, ch, h.keys)
+		if oi == nil {
+			return nil
+		}
+		s.Signature = world.EthSign(okey, bz)
+		s.SignedByAddress = oi.Address
 	case "stale":
 		it := h.mon.items[fmt.Sprintf("%s|%d", q, qm.GetId())]
 		if it == nil || len(it.Versions) < 2 {
@@ -744,7 +752,7 @@ func (h *hist) checkpointOf(b skywaytypes.InternalOutgoingTxBatch) []byte {
 	return cp
 }
 
-var confirmModes = []string{"valid", "valid", "valid", "valid", "garbage", "wrong-key", "other-validators-key", "replay-foreign", "duplicate", "stale", "foreign-orchestrator", "by-user"}
+var confirmModes = []string{"valid", "valid", "valid", "valid", "garbage", "wrong-key", "other-validators-key", "replay-foreign", "duplicate", "stale", "foreign-orchestrator", "by-user", "other-chains-key"}
 
 func (h *hist) mkConfirm(v *chain.Account, b skywaytypes.InternalOutgoingTxBatch, mode string) (*skywaytypes.MsgConfirmBatch, *chain.Account, *chain.Account) {
 	ch := b.ChainReferenceID
@@ -795,6 +803,13 @@ func (h *hist) mkConfirm(v *chain.Account, b skywaytypes.InternalOutgoingTxBatch
 		if sig == nil {
 			return nil, nil, nil
 		}
+	case "other-chains-key":
+		oi, okey := h.otherChain(v, ch, h.skyKeys)
+		if oi == nil || !common.IsHexAddress(oi.Address) {
+			return nil, nil, nil
+		}
+		sig = world.EthSign(okey, cp)
+		m.EthSigner = common.HexToAddress(oi.Address).Hex()
 	case "stale":
 		it := h.mon.batches[fmt.Sprintf("%s|%d", strings.ToLower(contract), b.BatchNonce)]
 		if it == nil || len(it.Versions) < 2 {
@@ -987,4 +1002,27 @@ func (h *hist) signAll(v *chain.Account, q string) *consensustypes.MsgAddMessage
 		return nil
 	}
 	return m
+}
+
+// otherChain: an account v has registered for a chain other than ch whose key differs from every
+// key v has on file for ch.
+func (h *hist) otherChain(v *chain.Account, ch string, keys map[string]map[string]*ecdsa.PrivateKey) (*valsettypes.ExternalChainInfo, *ecdsa.PrivateKey) {
+	here := map[common.Address]bool{}
+	if k := h.keys[v.ValBech()][ch]; k != nil {
+		here[addrOf(k)] = true
+	}
+	if k := h.skyKeys[v.ValBech()][ch]; k != nil {
+		here[addrOf(k)] = true
+	}
+	for _, o := range h.chains {
+		if o == ch {
+			continue
+		}
+		oi, ok := h.infos[v.ValBech()][o], keys[v.ValBech()][o]
+		if oi == nil || ok == nil || here[addrOf(ok)] || h.alias[v.ValBech()][o] != nil {
+			continue
+		}
+		return oi, ok
+	}
+	return nil, nil
 }
